@@ -65,7 +65,7 @@ def main():
         meta["demo_output_changed"] = (r1.stdout + r1.stderr)[-400:]
         meta["checks"] = {}
         for c in checks:
-            e2 = dict(os.environ, VP_REPO_SRC=os.path.join(copy, "src"), VERIF_SEED="1",
+            e2 = dict(os.environ, VP_REPO_SRC=os.path.join(copy, "src"), VERIF_SEED=os.environ.get("SEED_EVAL_SEED", "1"),
                       VP_EVIDENCE_DIR=os.path.join(copy, "_ev"), VP_OUT_DIR=os.path.join(copy, "_out"))
             t0 = time.time()
             r = sh([PY, "-m", "vp.run", c, "--tier", "quick"], cwd=VERIF, env=e2)
